@@ -47,6 +47,16 @@ func execKeys(c *ctx, in ev) []ev {
 				k2, e2 = util.UnmarshalTokenKey(rs)
 			}
 		})
+		// a NEIGHBOURING key is decoded before the decoded values are read: what UnmarshalTokenKey returned for this key
+		// is this key's, whatever is decoded afterwards
+		p2 := guard(func() {
+			if enc, err := util.MarshalTokenKeyPSSOID(&rsaKey(1).PublicKey); err == nil {
+				util.UnmarshalTokenKey(enc)
+			}
+		})
+		if p == "" {
+			p = p2
+		}
 		out["panic"] = p
 		out["pss"], out["rsa"], out["rsa_ok"] = B(pss), B(rs), rsaErr == nil
 		out["un_pss_ok"], out["un_rsa_ok"] = e1 == nil && k1 != nil, rsaErr == nil && e2 == nil && k2 != nil
@@ -197,12 +207,12 @@ func genKeys(c *ctx, emit func(ev)) {
 					n[0] = 1
 				}
 			}
-			emit(ev{"op": "Spki", "n": B(n), "e": B(e)})
+			emit(ev{"op": "Spki", "n": B(n), "e": B(e), "serial": true})
 		}
 	}
 	for i := 0; i < 4; i++ {
 		k := rsaKey(i)
-		emit(ev{"op": "Spki", "n": B(k.N.Bytes()), "e": B(beInt(k.E))})
+		emit(ev{"op": "Spki", "n": B(k.N.Bytes()), "e": B(beInt(k.E)), "serial": true})
 		emit(ev{"op": "IssuerPair", "kind": "t2", "rsa": i, "es": []any{B([]byte{1, 0, 1}), B([]byte{3}), B([]byte{1, 0, 1}), B([]byte{17})}})
 		emit(ev{"op": "SpkiPair", "n": B(k.N.Bytes()), "es": []any{B([]byte{1, 0, 1}), B([]byte{3}), B([]byte{1, 0, 1}), B([]byte{0x7f, 0xff, 0xff, 0xff}),
 			// exponents at and above 2^31 (an int is 64 bits wide): the DER integer grows a sign octet at 2^31, 2^39, ...
